@@ -120,6 +120,78 @@ theorem dur_reduce_pinned_no_years_months (days seconds micros millis minutes ho
 theorem dur_deepcopy_pinned_counterexample :
     (deepcopyDur_old (Dur.new 3 0 0 0 0 0 2 0 0)).obs ≠ (Dur.new 3 0 0 0 0 0 2 0 0).obs := by decide
 
+/-! ### AbsoluteDuration -/
+
+/-- pickle / copy of an AbsoluteDuration built from any integer arguments: the same value — signed `timedelta` base,
+    absolute components and the signed `_total` the `invert` flag is read from -/
+theorem absdur_reduce_roundtrip (days seconds micros millis minutes hours weeks years months : Int) :
+    rebuildAbs (reduceDur (AbsDur.new days seconds micros millis minutes hours weeks years months)) =
+      AbsDur.new days seconds micros millis minutes hours weeks years months :=
+  absdur_reduce_roundtrip' _ _ _ _ _ _ _ _ _
+
+/-- `__deepcopy__` (= `copy.copy`) likewise -/
+theorem absdur_deepcopy_roundtrip (days seconds micros millis minutes hours weeks years months : Int) :
+    deepcopyAbs (AbsDur.new days seconds micros millis minutes hours weeks years months) =
+      AbsDur.new days seconds micros millis minutes hours weeks years months :=
+  absdur_reduce_roundtrip' _ _ _ _ _ _ _ _ _
+
+theorem absdur_obs (days seconds micros millis minutes hours weeks years months : Int) :
+    let d := AbsDur.new days seconds micros millis minutes hours weeks years months
+    (rebuildAbs (reduceDur d)).absObs = d.absObs ∧ (deepcopyAbs d).absObs = d.absObs := by
+  intro d
+  exact ⟨by rw [absdur_reduce_roundtrip], by rw [absdur_deepcopy_roundtrip]⟩
+
+/-- the components of an AbsoluteDuration are absolute values in their canonical ranges … -/
+theorem absdur_components_nonneg (t y mo : Int) :
+    let s := absState t y mo
+    0 ≤ s.years ∧ 0 ≤ s.months ∧ 0 ≤ s.weeks ∧ 0 ≤ s.rdays ∧ s.rdays < 7 ∧ 0 ≤ s.hours ∧ s.hours < 24 ∧
+      0 ≤ s.minutes ∧ s.minutes < 60 ∧ 0 ≤ s.rsecs ∧ s.rsecs < 60 ∧ 0 ≤ s.micros ∧ s.micros < 1000000 ∧ 0 ≤ s.days :=
+  abs_comps_nonneg t y mo
+
+/-- … that add up to |total|: rebuilding from them (what the inherited `Duration.__deepcopy__` did) cannot recover the sign -/
+theorem absdur_components_total (t y mo : Int) :
+    let s := absState t y mo
+    argTotal s.rdays s.rsecs s.micros 0 s.minutes s.hours s.weeks = Pickle.absI t := abs_comps_total t y mo
+
+/-- the sign lives in the `timedelta` base and in `_total` only, and both agree: `invert` ⇔ the base is negative -/
+theorem absdur_invert_sign (days seconds micros millis minutes hours weeks years months : Int) :
+    let d := AbsDur.new days seconds micros millis minutes hours weeks years months
+    d.base.total = argTotal days seconds micros millis minutes hours weeks ∧
+      d.absInvert = decide (argTotal days seconds micros millis minutes hours weeks < 0) ∧ d.absInvert = d.invert := by
+  intro d
+  have hb : d.base.total = argTotal days seconds micros millis minutes hours weeks := base_total_ofTotal _
+  refine ⟨hb, rfl, ?_⟩
+  show decide (argTotal days seconds micros millis minutes hours weeks < 0) = decide (d.base.total < 0)
+  rw [hb]
+
+example : (AbsDur.new 0 0 (-3600000005) 0 0 0 0 0 0).absObs = ⟨0, 0, 0, 0, 1, 0, 0, 5, true, -1, 82799, 999995⟩ := by decide
+example : (deepcopyAbs (AbsDur.new (-3) 0 0 0 0 0 0 (-1) 2)).absObs = ⟨1, 2, 0, 3, 0, 0, 0, 0, true, -3, 0, 0⟩ := by decide
+example : (absState (-3600000005) 0 0).hours = 1 ∧ (absState (-3600000005) 0 0).micros = 5 := by decide
+
+/-- before the repair `copy.deepcopy` took the inherited `Duration.__deepcopy__` (class on the absolute components):
+    right for non-negative values … -/
+theorem absdur_deepcopy_pinned_nonneg (days seconds micros millis minutes hours weeks years months : Int)
+    (ht : 0 ≤ argTotal days seconds micros millis minutes hours weeks) (hy : 0 ≤ years) (hm : 0 ≤ months) :
+    deepcopyAbs_old (AbsDur.new days seconds micros millis minutes hours weeks years months) =
+      AbsDur.new days seconds micros millis minutes hours weeks years months := by
+  unfold deepcopyAbs_old AbsDur.new
+  simp only [abs_comps_total]
+  have h1 : Pickle.absI (argTotal days seconds micros millis minutes hours weeks) =
+      argTotal days seconds micros millis minutes hours weeks := by unfold Pickle.absI; split <;> omega
+  have h2 : Pickle.absI years = years := by unfold Pickle.absI; split <;> omega
+  have h3 : Pickle.absI months = months := by unfold Pickle.absI; split <;> omega
+  simp only [absState, h1, h2, h3]
+
+/-- … and wrong for every negative one: −1 h 5 µs came back as +1 h 5 µs (`invert` lost, base triple changed) -/
+theorem absdur_deepcopy_pinned_counterexample :
+    (deepcopyAbs_old (AbsDur.new 0 0 (-3600000005) 0 0 0 0 0 0)).absObs ≠
+      (AbsDur.new 0 0 (-3600000005) 0 0 0 0 0 0).absObs := by decide
+
+/-- `timedelta.__reduce__` alone (pinned) kept the sign but not years/months -/
+theorem absdur_reduce_pinned_counterexample :
+    (rebuildAbs_old (AbsDur.new (-3) 0 0 0 0 0 0 (-1) 2)).absObs = ⟨0, 0, 0, 3, 0, 0, 0, 0, true, -3, 0, 0⟩ ∧
+      (AbsDur.new (-3) 0 0 0 0 0 0 (-1) 2).absObs = ⟨1, 2, 0, 3, 0, 0, 0, 0, true, -3, 0, 0⟩ := by decide
+
 /-! ### Interval -/
 
 /-- `_getstate` undoes the swap of an inverted absolute interval, so the constructor redoes it:
@@ -157,6 +229,18 @@ theorem time_pickle_obs (t : TimeV) : (pickleTime t).obs = t.obs := by
   cases htz : t.tz with
   | none => rfl
   | some z => simp only [Option.map]; rw [tz_roundtrip' z]
+
+/-- `copy.deepcopy` of a Time (no `__deepcopy__`: reduce path with a deep-copied tzinfo) -/
+theorem time_deepcopy_obs (t : TimeV) : (deepcopyTime t).obs = t.obs := time_pickle_obs t
+
+/-- the tzinfo *object* a Time carries comes back equal in every field, not only in what is observed -/
+theorem time_pickle_tz (t : TimeV) : (pickleTime t).tz = t.tz ∧ (pickleTime t).tod = t.tod := by
+  unfold pickleTime reduceTime rebuildTime
+  cases htz : t.tz with
+  | none => exact ⟨rfl, rfl⟩
+  | some z => simp only [Option.map]; rw [tz_roundtrip' z]; simp
+
+example : (deepcopyTime ⟨3600000001, some (mkFixed 3600 []), true⟩).obs = ⟨3600000001, ⟨2, [43, 48, 49, 58, 48, 48], some 3600000000⟩⟩ := by decide
 
 theorem time_copy_obs (t : TimeV) : (rebuildTime (reduceTime t)).obs = t.obs := rfl
 
